@@ -53,7 +53,7 @@ def config(rng):
     """A random configuration: {'w': workload spec or named input, 'opts': [...], 'fail': bool}"""
     c = rng.random()
     if c < 0.12:
-        kind = rng.choice(["garbage", "missing_backbone", "bad_option"])
+        kind = rng.choice(["garbage", "missing_backbone", "bad_option", "bad_usernames_other_ff", "bad_usernames_broken_xml"])
         return {"id": f"fail-{kind}", "fail": kind, "opts": ["--ff=AMBER"], "w": None}
     ff = rng.choice(common.FFS)
     opts = [f"--ff={ff}"]
@@ -111,6 +111,10 @@ def text_of(cfg):
         return "garbage\nATOM broken line\n"
     if cfg["fail"] == "bad_option":
         return "END\n"
+    if cfg["fail"] in ("bad_usernames_other_ff", "bad_usernames_broken_xml"):
+        m = workload.materialise({"w": "synth", "seed": 6, "ff": "AMBER", "p": {"nchains": 1, "maxlen": 4, "minlen": 4,
+                                                                               "waters": [0], "na": False}})
+        return m["text"]
     if cfg["fail"] == "missing_backbone":
         m = workload.materialise({"w": "synth", "seed": 5, "ff": "AMBER", "p": {"nchains": 1, "maxlen": 4, "minlen": 4,
                                                                                "waters": [0], "na": False}})
@@ -156,6 +160,14 @@ def run_cfg(cfg):
     text = text_of(cfg)
     opts = cfg["opts"] + (["--no-such-flag"] if cfg["fail"] == "bad_option" else [])
     extra = None
+    if cfg["fail"] == "bad_usernames_other_ff":
+        # a well-formed names file written for another force field (its targets do not exist in AMBER.DAT)
+        extra = {"u.names": (common.REPO / "pdb2pqr" / "dat" / "CHARMM.names").read_text()}
+        opts = ["--ff=AMBER", "--usernames={dir}/u.names"]
+    elif cfg["fail"] == "bad_usernames_broken_xml":
+        t = (common.REPO / "pdb2pqr" / "dat" / "AMBER.names").read_text()
+        extra = {"u.names": t[: len(t) // 2]}
+        opts = ["--ff=AMBER", "--usernames={dir}/u.names"]
     if cfg.get("userff"):
         from ..gen import ffgen
         if cfg["userff"].get("names_only"):
@@ -333,7 +345,12 @@ def run_history(spec, res):
         extra_pair = [P, U, P]
     # history with forced patterns
     A, B = pool[0], pool[1]
+    if spec["seed"] % 2 == 0:
+        fails = fails[:1] + [{"id": f"fail-{k}", "fail": k, "opts": ["--ff=AMBER"], "w": None}
+                             for k in ("bad_usernames_other_ff", "bad_usernames_broken_xml")]
     hist = [A, B, A, fails[0], A, B, fails[-1], B] + extra_pair
+    if len(fails) > 2:
+        hist += [fails[1], A]
     hist += [rng.choice(pool + fails) for _ in range(rng.randint(4, 14))]
     hist += [A]
     import_all()
